@@ -244,6 +244,12 @@ type stats struct {
 }
 
 func runAll(rep *mbt.Report, tabs *schema.Tables, progs []schema.Prog, full func(p *schema.Prog) bool, st *stats) {
+	t0 := time.Now()
+	defer func() {
+		if len(progs) > 0 {
+			fmt.Printf("stage %s: %d programs in %.1fs\n", progs[0].Fam, len(progs), time.Since(t0).Seconds())
+		}
+	}()
 	outs := make([]outcome, len(progs))
 	llvmoracle.Parallel(len(progs), func(i int) { outs[i] = evaluate(tabs, &progs[i], full(&progs[i])) })
 	for i := range outs {
